@@ -22,7 +22,7 @@ ASSUMPTIONS = ['a result block is attributed to a target by its "(gen) target:" 
                'rank order internal error > connection error > failure > warning > good, as the README documents']
 
 FAIL_KINDS = ['unresolvable', 'refused', 'blackhole', 'silent', 'close_before_banner', 'close_after_banner', 'bad_block', 'bad_crc', 'trunc_kexinit', 'probe_garbage',
-              'vermismatch', 'stall_kexinit', 'reset_mid', 'badport', 'badport0', 'badport_nan']
+              'vermismatch', 'stall_kexinit', 'reset_mid', 'badport', 'badport0', 'badport_nan', 'probe_resets', 'vermismatch_oneshot']
 HEALTHY = ['clean', 'terrapin_marked', 'rsa2048', 'gex2048', 'cbc_etm', 'rsa4096', 'ssh1']
 RANK = {0: 0, 2: 1, 3: 2, 1: 3, 255: 4}
 
@@ -62,6 +62,16 @@ def bad_target(rng, kind, i):
         t['faults'] = [{'conn': 1, 'msg': 'reply', 'kind': 'garbage', 'n': 64}, {'conn': 2, 'msg': 'kexinit', 'kind': 'corrupt', 'off': 0, 'hex': '00000003'}]
     elif kind == 'vermismatch':
         t['profile'] = {'banner': 'SSH-1.5-OpenSSH_3.0', 'ssh2': False, 'ssh1': None}
+    elif kind == 'vermismatch_oneshot':
+        # answers the SSH-2 attempt with the version notice, then lets no second connection in
+        t['profile'] = {'banner': 'SSH-1.5-OpenSSH_3.0', 'ssh2': False, 'ssh1': None}
+        t['faults'] = [{'conn': 1, 'kind': rng.choice(['refuse', 'blackhole'])}] if rng.random() < 0.6 else [{'conn': 1, 'msg': 'banner', 'kind': 'truncate_reset', 'off': 0}]
+    elif kind == 'probe_resets':
+        # a healthy first exchange (group exchange offered), then every further connection is reset once the tool has introduced itself
+        base['kex'] = ['curve25519-sha256', 'diffie-hellman-group-exchange-sha256'] + [x for x in base['kex'] if x.startswith('kex-strict')]
+        base['gex'] = {'sizes': [2048, 4096], 'style': 'strict'}
+        where = rng.choice(['banner', 'banner', 'kexinit'])        # instead of its identification string, or instead of its KEXINIT
+        t['faults'] = [{'conn_from': 1, 'msg': where, 'kind': 'truncate_reset', 'off': 0}]
     return t
 
 
@@ -113,7 +123,11 @@ def run_case(case, ctx):
     targets = case['targets']
     scratch = ctx.scratch()
     archs = [t.get('arch') for t in targets]
-    mrec = ctx.run(multi.multi_plan(case, case['opts'], case['threads'], scratch))
+    mplan = multi.multi_plan(case, case['opts'], case['threads'], scratch)
+    # a run over at most 21 targets needs minutes of simulated time at the very most: a run that is still going after 25 simulated
+    # minutes (or a million events) is one that does not end
+    mplan['knobs'] = dict(mplan.get('knobs') or {}, max_vtime_s=1500, max_events=1_000_000)
+    mrec = ctx.run(mplan)
     if mrec.get('harness_error'):
         return {'violations': [], 'keys': []}
     singles = []
